@@ -1862,3 +1862,20 @@ S('c18-anything-like-skips-private', 'C18', PM,
   '''    for field_name, field, _, _ in pkt_class.get_fields():
         if field.is_fixed:
             setattr(pkt, field_name, Any())''', 'R12-any-equality')
+
+# =========================================================================== C09 n-ary forms
+S('c09-nary-dict-as-list', 'C09', DF,
+  '''                    if isinstance(B[0], dict):  # nary({k1: v1, k2: v2})
+                        C = B[0]
+                        B = []''',
+  '''                    if isinstance(B[0], dict):  # nary({k1: v1, k2: v2})
+                        C = dict(B[0])
+                        C.pop(None, None)
+                        B = []''', 'R9-nary-forms')
+S('c09-nary-tuple-not-unwrapped', 'C09', DF,
+  '''                    elif isinstance(B[0], (list, tuple)):  # nary([v1, v2])
+                        B = B[0]
+                        C = {}''',
+  '''                    elif isinstance(B[0], list):  # nary([v1, v2])
+                        B = B[0]
+                        C = {}''', 'R9-nary-forms')
